@@ -83,8 +83,8 @@ def setter_type(d, f):
 
 def getter_type(d, f):
     if f["kind"] == "optenum":
-        e = enum_of(d, f)
-        return "Result<%s, u%d>" % (e["name"], storage_of(e["n"]))
+        # Ok carries the enum; the integer type of the Err payload is not pinned by the glue (`_`)
+        return "Result<%s, _>" % enum_of(d, f)["name"]
     return field_type(d, f)
 
 
@@ -239,7 +239,7 @@ def from_field_value(d, f, expr):
     if k == "optenum":
         e = enum_of(d, f)
         arms = ["Ok(%s::%s) => crate::rt::Obs::Ok(\"%s\")," % (e["name"], v["name"], v["name"]) for v in e["variants"]]
-        return "(match %s { %s Err(raw) => crate::rt::Obs::Err(raw as u128), })" % (expr, " ".join(arms))
+        return "(match %s { %s Err(raw) => crate::rt::Obs::Err(crate::rt::RawBits::raw_bits(raw)), })" % (expr, " ".join(arms))
     if k == "nested":
         nd = nested_of(d, f)
         return "crate::rt::Obs::Bits(%s, String::new())" % conv_to_u128("%s.raw_value()" % expr, nd["n"])
